@@ -85,6 +85,23 @@ def c11o: Int then 41
 const C11_CONST = c11n()
 println(C11_CONST)
 `},
+	{"three-methods-used-in-constants", `
+const C11K1: Int = Foo11.k1
+const C11K2: Int = Foo11.k2
+const C11K3: Int = Foo11.k3
+module Foo11
+  def k1: Int
+    C11K1
+  end
+  def k2: Int
+    C11K2
+  end
+  def k3: Int
+    C11K3
+  end
+end
+println(1)
+`},
 	{"class-methods", `
 class C11Foo
   attr n: Int
@@ -149,9 +166,9 @@ func main() {
 	engine.Main(&engine.Spec{
 		Prop:  "C11",
 		Level: "model_checking",
-		Rule: "9 programs with 2-4 colliding method bodies (mutual calls with locals, callee-first, diagnostics in several bodies, same new symbol in two bodies, method used in a constant, class methods, closures and throws, macros plus methods) x MethodCheckConcurrencyLimit in {1,2,3,100}; for each, every schedule of the parallel body-checking phase (concurrent.Foreach: goroutine starts, semaphore channel, diagnostics mutex, concurrent containers, plus a point before every statement of position/diagnostic/diagnostic.go, concurrent/slice.go and concurrent/map.go) with at most B preemptions (quick 1, thorough 2) is executed on the real checker+compiler, then the compiled program runs on the VM; " +
+		Rule: "10 programs with 2-4 colliding method bodies (mutual calls with locals, callee-first, diagnostics in several bodies, same new symbol in two bodies, method used in a constant, three methods each called in a constant's initialiser, class methods, closures and throws, macros plus methods) x MethodCheckConcurrencyLimit in {1,2,3,100}; for each, every schedule of the parallel body-checking phase (concurrent.Foreach: goroutine starts, semaphore channel, diagnostics mutex, concurrent containers, plus a point before every statement of position/diagnostic/diagnostic.go, concurrent/slice.go and concurrent/map.go) with at most B preemptions (quick 1, thorough 2) is executed on the real checker+compiler, then the compiled program runs on the VM; " +
 			"oracle: the sorted diagnostic set and the program's stdout/result are identical to the sequential (limit 1, default schedule) outcome, no deadlock, no host panic; non-trivial = (program, limit) pairs with at least 20 schedules",
-		Assume:      []string{"only the body-checking phase branches; import parsing before it runs under a fixed deterministic schedule", "unsynchronised accesses between scheduling points are invisible to the explorer: the clause 'checking is free of data races' is covered by the supplementary free-running pass under Go's race detector (case racepass/programs: the same 9 programs x limits {2,3,100} x 10 (thorough 100) rounds on the uninstrumented checker); symbol interning is C26's subject"},
+		Assume:      []string{"only the body-checking phase branches; import parsing before it runs under a fixed deterministic schedule", "unsynchronised accesses between scheduling points are invisible to the explorer: the clause 'checking is free of data races' is covered by the supplementary free-running pass under Go's race detector (case racepass/programs: the same 10 programs x limits {2,3,100} x 10 (thorough 100) rounds on the uninstrumented checker); symbol interning is C26's subject"},
 		CaseTimeout: 15 * time.Minute,
 		Setup: func(c *engine.Ctx) {
 			elkrun.Init()
